@@ -39,15 +39,32 @@ def closestNsec (z : Zone) (name : LName) : Option RRset :=
       | none => false
     | none => false
 
-/-- `InMemoryZoneHandler::nsec_records` -/
+/-- the `while` loop of `nsec_records`: climbs from `name.base_name()` to the closest encloser
+(the longest ancestor inside the zone that owns records or has a descendant that does; the origin
+at the latest) and returns its child on the way down to `name` (`next_closer`) -/
+def nextCloser (z : Zone) (o : LName) : LName → LName → LName
+  | nc, [] => nc
+  | nc, l :: rest =>
+    if zoneOf o (l :: rest) && (l :: rest) != o && !(z.any fun r => zoneOf (l :: rest) r.name) then
+      nextCloser z o (l :: rest) rest
+    else nc
+
+/-- `LowerName::into_wildcard` -/
+def intoWildcard (n : LName) : LName :=
+  match n with
+  | [] => []
+  | _ :: rest => star :: rest
+
+/-- `InMemoryZoneHandler::nsec_records`: the NSEC of the name itself, or the NSEC covering it
+plus the NSEC matching or covering the wildcard at the closest encloser -/
 def nsecRecords (z : Zone) (o name : LName) : List RRset :=
   match getRR z name T_NSEC with
   | some r => [r]
   | none =>
     let closest := closestNsec z name
-    let base := name.tail
-    let wildcard := if zoneOf o base then base else o
-    let wproof := if wildcard != name then closestNsec z wildcard else none
+    let wildcard := intoWildcard (nextCloser z o name name.tail)
+    let wildcardExists := z.any fun r => r.name == wildcard
+    let wproof := if wildcard != name && !wildcardExists then closestNsec z wildcard else none
     match closest, wproof with
     | some c, some w => if w != c then [w, c] else [c]
     | none, some p => [p]
